@@ -180,7 +180,7 @@ pub fn error_variant(e: &wgsl_to_wgpu::CreateModuleError) -> String {
     }
 }
 
-/// History leg: when on, every formatter-off call made through `generate_with` is preceded, on the same thread, by one
+/// History leg: when on, every second formatter-off call (by hash of the source) made through `generate_with` is preceded, on the same thread, by one
 /// other call (chosen by the hash of the source from `PRIOR_CALLS`: calls that panic at different depths, calls that
 /// return each error, calls that succeed on wide modules). The checked call's expected result never depends on it:
 /// every property quantifies over single calls whatever happened before on the thread.
@@ -250,7 +250,11 @@ fn prior_call(h: u64) {
 pub fn generate_with(src: &str, include: Option<&str>, options: WriteOptions) -> Outcome {
     if !options.rustfmt {
         if HISTORY_LEG.load(std::sync::atomic::Ordering::Relaxed) {
-            prior_call(hash64(src));
+            // every second source (by hash) gets a history; which one is chosen by the remaining hash bits
+            let h = hash64(src);
+            if h % 2 == 0 {
+                prior_call(h / 2);
+            }
         }
         return generate_with_unguarded(src, include, options);
     }
